@@ -38,6 +38,7 @@ type VerifTrace struct {
 	chans  map[interface{}]int
 	subs   map[*TypeMuxSubscription]int // TypeMux subscriptions, numbered 1.. in order of first appearance
 	types  map[reflect.Type]int         // event types, registered with RegisterType
+	ssubs  map[Subscription]int         // subscriptions tracked by a SubscriptionScope, registered with RegisterSub
 	rng    uint64
 	yield  int // percent of points followed by a yield
 	sleep  int // percent of points followed by a short sleep
@@ -50,7 +51,7 @@ var (
 
 // VerifAttach starts recording the synchronisation points of f.
 func VerifAttach(f interface{}, seed uint64, yieldPct, sleepPct int) *VerifTrace {
-	t := &VerifTrace{chans: map[interface{}]int{}, subs: map[*TypeMuxSubscription]int{}, types: map[reflect.Type]int{}, rng: seed*0x9E3779B97F4A7C15 + 1, yield: yieldPct, sleep: sleepPct}
+	t := &VerifTrace{chans: map[interface{}]int{}, subs: map[*TypeMuxSubscription]int{}, types: map[reflect.Type]int{}, ssubs: map[Subscription]int{}, rng: seed*0x9E3779B97F4A7C15 + 1, yield: yieldPct, sleep: sleepPct}
 	verifTraces.Store(f, t)
 	atomic.AddInt32(&verifActive, 1)
 	return t
@@ -218,6 +219,37 @@ func verifMuxPoint(mux *TypeMux, point string, s *TypeMuxSubscription, typ refle
 		}
 	}
 	t.events = append(t.events, VerifEvent{g, point, id, ty})
+	r := t.next()
+	t.mu.Unlock()
+	t.pause(r)
+}
+
+// RegisterSub gives a Subscription (comparable, e.g. a pointer) the id used in SubscriptionScope trace records.
+func (t *VerifTrace) RegisterSub(s Subscription, id int) {
+	t.mu.Lock()
+	t.ssubs[s] = id
+	t.mu.Unlock()
+}
+
+// verifScopePoint records (goroutine, point, subscription id) for the SubscriptionScope given.
+func verifScopePoint(sc *SubscriptionScope, point string, s Subscription) {
+	if atomic.LoadInt32(&verifActive) == 0 {
+		return
+	}
+	v, ok := verifTraces.Load(sc)
+	if !ok {
+		return
+	}
+	t := v.(*VerifTrace)
+	g := VerifGoid()
+	t.mu.Lock()
+	id := -1
+	if s != nil {
+		if i, ok := t.ssubs[s]; ok {
+			id = i
+		}
+	}
+	t.events = append(t.events, VerifEvent{g, point, id, 0})
 	r := t.next()
 	t.mu.Unlock()
 	t.pause(r)
